@@ -36,7 +36,7 @@ KEYWORDS = {
     "update", "set", "delete", "create", "table", "index", "drop", "if",
     "exists", "primary", "key", "analyze", "pragma", "replace", "ignore",
     "inner", "left", "outer", "cross", "unique", "limit", "group", "having",
-    "is", "null", "between", "like", "union", "all",
+    "is", "null", "between", "like", "union", "all", "offset",
 }
 
 
@@ -94,6 +94,10 @@ class Select:
         self.joins = []  # (TableRef, on-expr or None)
         self.where = None
         self.order_by = []  # (expr, 'asc'|'desc'|None)
+        self.group_by = []
+        self.having = None
+        self.limit = None
+        self.offset = None
         self.verb = "SELECT"
 
     def tables(self):
@@ -262,6 +266,16 @@ class Parser:
         if self.at_kw("where"):
             self.next()
             s.where = self.parse_expr()
+        if self.at_kw("group"):
+            self.next()
+            self.expect_kw("by")
+            s.group_by = [self.parse_expr()]
+            while self.at("punct", ","):
+                self.next()
+                s.group_by.append(self.parse_expr())
+            if self.at_kw("having"):
+                self.next()
+                s.having = self.parse_expr()
         if self.at_kw("order"):
             self.next()
             self.expect_kw("by")
@@ -275,6 +289,12 @@ class Parser:
                     self.next()
                     continue
                 break
+        if self.at_kw("limit"):
+            self.next()
+            s.limit = self.parse_expr()
+            if self.at_kw("offset"):
+                self.next()
+                s.offset = self.parse_expr()
         return s
 
     def parse_result_col(self):
@@ -659,8 +679,13 @@ def placeholders(stmt_or_expr):
                 sel(ref[1])
             expr(on)
         expr(s.where)
+        for e in s.group_by:
+            expr(e)
+        expr(s.having)
         for e, _d in s.order_by:
             expr(e)
+        expr(s.limit)
+        expr(s.offset)
 
     s = stmt_or_expr
     if isinstance(s, Select):
